@@ -14,8 +14,8 @@
         fn iter(&self) -> TVIter<'_> { TVIter { v: self, i: 0 } }
         fn insert(&mut self, index: usize, x: Rc<TokenType>) {
             assert!(index <= self.len && self.len < 12);
-            let mut k = 11;
-            while k > 0 { if k > index && k <= self.len { self.buf[k] = self.buf[k - 1].take(); } k -= 1; }
+            let mut k = self.len;
+            while k > index { self.buf[k] = self.buf[k - 1].take(); k -= 1; }
             self.buf[index] = Some(x);
             self.len += 1;
         }
@@ -44,6 +44,8 @@
     // implicit 0 in front; nothing else is changed
     #[kani::proof]
     fn implicit_plus_and_leading_zero() { implicit_plus(5) }
+    #[kani::proof]
+    fn implicit_plus_and_leading_zero_up_to_3() { implicit_plus(3) }
     fn implicit_plus(nmax: usize) {
         let n: usize = kani::any();
         kani::assume(n >= 2 && n <= nmax);
